@@ -80,36 +80,49 @@ def run(prog: Program, ctx: Ctx) -> None:  # noqa: PLR0912,PLR0915
                    "enclose a class*, then module globals (imports -> their target path); the enclosing object's own name resolves to it; "
                    "__init__ parameters resolve to Parent(name); unknown names raise NameResolutionError")
 
-    def mk(cls_, name, kind, parent, members=None, **extra):
-        o = Obj(cls_, {"name": name, "parent": parent, "members": members if members is not None else {}, "inherited_members": {}, "is_module": kind == "module", "is_class": kind == "class",
-                       "is_function": kind == "function", "is_alias": False, "path": (f"{parent.attrs['path']}.{name}" if parent is not None else name), **extra}, label=name)
+    def new(cls_name, *a, **k):
+        return it._construct(prog.cls(f"{M}.{cls_name}"), list(a), dict(k))
+
+    def setm(o, n, v):
+        it.call(prog.lookup_method(o.cls, "set_member")[0], o, n, v)
+
+    def mk(cls_name, name, parent, **extra):
+        o = new(cls_name, name, **extra)  # built by the models' own constructors: whatever state they set up is there
         if parent is not None:
-            parent.attrs["members"][name] = o
+            setm(parent, name, o)
         return o
 
     def leaf(name, parent, *, alias_target=None):
-        o = Obj(None, {"name": name, "is_alias": alias_target is not None, "path": f"{parent.attrs['path']}.{name}", "target_path": alias_target}, label=name)
-        parent.attrs["members"][name] = o
+        o = new("Alias", name, alias_target) if alias_target is not None else new("Attribute", name)
+        setm(parent, name, o)
         return o
 
-    mod = mk(ocls, "mod", "module", None)
+    mod = mk("Module", "mod", None)
     leaf("G", mod)
     leaf("imp", mod, alias_target="ext.thing")
-    outer = mk(ocls, "Outer", "class", mod)
+    outer = mk("Class", "Outer", mod)
     leaf("OA", outer)
     # a member Outer merely inherits from a base class: not visible as a bare name in its body
-    outer.attrs["inherited_members"]["INH"] = Obj(None, {"name": "INH", "is_alias": True, "path": "mod.Outer.INH", "target_path": "mod.Base.INH"}, label="INH")
-    inner = mk(ocls, "Inner", "class", outer)
+    inh = new("Alias", "INH", "mod.Base.INH")
+    inh.attrs["_parent"] = outer
+    outer.attrs["inherited_members"] = {"INH": inh}
+    inner = mk("Class", "Inner", outer)
     leaf("IA", inner)
-    params = Obj(prog.cls(f"{M}.Parameters"), {"_params": [Obj(prog.cls(f"{M}.Parameter"), {"name": "p"})]})
-    meth = mk(fcls, "m", "function", outer, parameters=params)
-    init = mk(fcls, "__init__", "function", outer, parameters=params)
-    imeth = mk(fcls, "im", "function", inner, parameters=params)
-    func = mk(fcls, "f", "function", mod, parameters=params)
-    nested_in_func = mk(ocls, "Local", "class", func)  # class defined in a function body sees the function's (module's) names
+
+    def params():
+        return new("Parameters", new("Parameter", "p"))
+
+    meth = mk("Function", "m", outer, parameters=params())
+    init = mk("Function", "__init__", outer, parameters=params())
+    imeth = mk("Function", "im", inner, parameters=params())
+    func = mk("Function", "f", mod, parameters=params())
+    mk("Class", "Local", func)  # class defined in a function body sees the function's (module's) names
     scopes = {"module": mod, "class Outer": outer, "class Outer.Inner": inner, "method Outer.m": meth, "method Outer.__init__": init,
               "method Outer.Inner.im": imeth, "function f": func}
     names = ["G", "imp", "OA", "IA", "Outer", "Inner", "p", "zz", "mod", "INH"]
+
+    def A(o, attr):
+        return it.getattr(o, attr)
 
     def python_rule(scope_label: str, name: str) -> str:
         """Reference: what the name is bound to at that point under Python's scoping (+ the two documented Griffe conventions)."""
@@ -118,29 +131,29 @@ def run(prog: Program, ctx: Ctx) -> None:  # noqa: PLR0912,PLR0915
         cur = s
         while cur is not None:
             chain.append(cur)
-            cur = cur.attrs["parent"]
+            cur = A(cur, "parent")
         # Griffe convention: inside __init__, a parameter name denotes the instance attribute it initialises
-        if s.attrs["name"] == "__init__" and s.attrs["is_function"] and name == "p":
-            return f"{s.attrs['parent'].attrs['path']}(p)"
+        if A(s, "name") == "__init__" and A(s, "is_function") and name == "p":
+            return f"{A(A(s, 'parent'), 'path')}(p)"
         visible = []
         for i, sc in enumerate(chain):
             if i == 0:
                 visible.append(sc)
-            elif sc.attrs["is_module"] or sc.attrs["is_function"]:
+            elif A(sc, "is_module") or A(sc, "is_function"):
                 visible.append(sc)
-            elif sc.attrs["is_class"]:
+            elif A(sc, "is_class"):
                 # a class body is visible from the functions defined directly in it (annotations/defaults are evaluated there), never from a nested class
                 below = chain[i - 1]
-                if below.attrs["is_function"] and below is chain[0]:
+                if A(below, "is_function") and below is chain[0]:
                     visible.append(sc)
         for sc in visible:
             if name in sc.attrs["members"]:
                 m_ = sc.attrs["members"][name]
-                return m_.attrs["target_path"] if m_.attrs["is_alias"] else m_.attrs["path"]
+                return A(m_, "target_path") if A(m_, "is_alias") else A(m_, "path")
         # the enclosing object's own name (bound in *its* enclosing scope): Griffe resolves it directly
         for sc in chain[1:]:
-            if not sc.attrs["is_module"] and sc.attrs["name"] == name:
-                return sc.attrs["path"]
+            if not A(sc, "is_module") and A(sc, "name") == name:
+                return A(sc, "path")
         return "<NameResolutionError>"
 
     rows = 0
@@ -157,6 +170,28 @@ def run(prog: Program, ctx: Ctx) -> None:  # noqa: PLR0912,PLR0915
         ctx.ob("R3", f"resolve|from {sl}|{name}" if not leak else f"class-scope-leak|from {sl}|{name}", got == want,
                f"resolving `{name}` from {sl}: {got}" + ("" if got == want else f", but Python binds {want}"), where(rfn))
     ctx.expect_min("R3", rows, 50)
+    # the answer follows the current bindings: a name resolved once and then bound closer (or re-bound) resolves to the new binding
+    fm = new("Module", "mod")
+    setm(fm, "Thing", new("Alias", "Thing", "ext.Thing"))
+    fk = new("Class", "K")
+    setm(fm, "K", fk)
+    fmeth = new("Function", "meth")
+    setm(fk, "meth", fmeth)
+    steps = []
+    rfn = prog.lookup_method(fk.cls, "resolve")[0]
+    try:
+        steps.append(("imported at module level", it.call(rfn, fk, "Thing"), it.call(prog.lookup_method(fmeth.cls, "resolve")[0], fmeth, "Thing")))
+        setm(fk, "Thing", new("Class", "Thing"))
+        steps.append(("then defined in the class body", it.call(rfn, fk, "Thing"), it.call(prog.lookup_method(fmeth.cls, "resolve")[0], fmeth, "Thing")))
+        setm(fm, "Thing", new("Class", "Thing"))
+        it.call(prog.lookup_method(fk.cls, "del_member")[0], fk, "Thing")
+        steps.append(("then removed from the class and defined in the module", it.call(rfn, fk, "Thing"), it.call(prog.lookup_method(fmeth.cls, "resolve")[0], fmeth, "Thing")))
+    except Raised as r:
+        steps.append((f"raises {r.exc}", None, None))
+    want_steps = [("imported at module level", "ext.Thing", "ext.Thing"), ("then defined in the class body", "mod.K.Thing", "mod.K.Thing"),
+                  ("then removed from the class and defined in the module", "mod.Thing", "mod.Thing")]
+    ctx.ob("R3", "freshness|class body and method after re-binding", steps == want_steps,
+           f"`Thing` resolved from class K and from K.meth, {steps}; Python binds {want_steps}", where(rfn))
 
     # ------------------------------------------------------------------ R4 relative imports
     ctx.rule("R4", "relative_to_absolute equals importlib's resolution for every (module depth, init?, level, with/without module) CPython accepts")
@@ -260,3 +295,38 @@ def run(prog: Program, ctx: Ctx) -> None:  # noqa: PLR0912,PLR0915
     from sa.importrules import wildcard_table
 
     wildcard_table(prog, ctx, "R9")
+
+    # ------------------------------------------------------------------ R10 scope of the expressions of a class statement
+    ctx.rule("R10", "the bases and decorators of a class statement are evaluated in the scope that contains the statement (never in the body of the "
+                    "class being defined); the decorators of a method in the class body")
+    from sa.tables.extraction import Extraction
+
+    ex = Extraction(prog)
+    src = ('"""Doc."""\nclass Meta: ...\ndef register(c): return c\nimport fields\n@register\nclass Model(Meta, fields.Field):\n    class Meta: ...\n'
+           '    register = 1\n    fields = ()\n    def wrap(f): return f\n    @wrap\n    def method(self): ...\n'
+           '    class Nested(Meta):\n        class Meta: ...\n')
+    res = ex.visit(src)
+    gmf = prog.function("_griffe.agents.visitor.Visitor.visit_classdef")
+    if isinstance(res, str):
+        ctx.ob("R10", "class-statement-scope", False, f"visiting the sample module {res}", where(gmf))
+    else:
+        got, _ev = res
+        model, nested, method = got["m.Model"]["obj"], got["m.Model.Nested"]["obj"], got["m.Model.method"]["obj"]
+
+        def canon(e):
+            try:
+                return ex.it.getattr(e, "canonical_path")
+            except Raised as r:
+                return f"raises {r.exc}"
+
+        seen_ = {
+            "bases of Model": [canon(b) for b in model.attrs["bases"]],
+            "decorators of Model": [canon(d.attrs["value"]) for d in model.attrs["decorators"]],
+            "bases of Model.Nested": [canon(b) for b in nested.attrs["bases"]],
+            "decorators of Model.method": [canon(d.attrs["value"]) for d in method.attrs["decorators"]],
+        }
+        want_ = {"bases of Model": ["m.Meta", "fields.Field"], "decorators of Model": ["m.register"], "bases of Model.Nested": ["m.Model.Meta"],
+                 "decorators of Model.method": ["m.Model.wrap"]}
+        for k_, v_ in want_.items():
+            ctx.ob("R10", f"class-statement-scope|{k_}", seen_[k_] == v_, f"{k_}: {seen_[k_]}; Python evaluates them to {v_}", where(gmf))
+
